@@ -224,11 +224,13 @@ def run(ctx):
         "lists, both output arms, and process states left by an earlier invocation: exactly one library call, with the workspace, "
         "measurement, patches and value options as given, issued under the backend the option names and under the optimiser the "
         "options name with exactly the merged --optconf settings; the JSON emitted is made of what that call returned",
-        "STATE", floor=6,
+        "STATE", floor=25,
     )
     from . import c19cli
     c19cli.check_infer(ctx, r4, repo)
     c19cli.check_inspect(ctx, r4, repo)
+    c19cli.check_workspace_commands(ctx, r4, repo)
+    c19cli.check_rootio(ctx, r4, repo)
     all_cmds = []
     for fn in ("infer.py", "spec.py", "patchset.py", "rootio.py"):
         m = repo.module(CLI + fn)
